@@ -868,6 +868,8 @@ def _apply_proj(e, proj, fn, seen, depth):
                 e = hit[0] if hit else ("field", e, name)
             elif e[0] == "tuple" and name.isdigit() and int(name) < len(e[1]):
                 e = e[1][int(name)]
+            elif e[0] == "closure" and name.isdigit() and int(name) < len(e[2]):
+                e = e[2][int(name)]      # a captured variable of a closure value built in this function
             elif e[0] == "bin" and e[1].endswith("WithOverflow"):
                 if name == "0":
                     e = ("bin", e[1][:-len("WithOverflow")], e[2], e[3])
@@ -1031,6 +1033,15 @@ class Program:
         if key not in cache:
             cache[key] = inline_private_helpers(self, f, wanted=wanted, depth=depth)
         return cache[key]
+
+    def fn_loops(self, path):
+        """fn(path) with iterator-adaptor chains over closure literals / function items (map, filter_map, filter,
+        inspect ... collect-into-Vec, for_each, fold) rewritten as the explicit loops they denote."""
+        f = self.fn(path)
+        cache = self.__dict__.setdefault("_loops", {})
+        if path not in cache:
+            cache[path] = desugar_adaptors(self, f)
+        return cache[path]
 
     def has_fn(self, path):
         return path in self.fns
@@ -1665,3 +1676,228 @@ def _thread_jumps(blocks, max_new=240, rounds=48):
                 break
         if not changed:
             break
+
+
+# --------------------------------------------------------------------------
+# iterator adaptor chains as loops
+#
+#   base.filter_map(|x| f(x)).collect::<Vec<_>>()      ==   let mut v = Vec::new(); for x in base { if let Some(y) = f(x) { v.push(y) } }
+#   base.map(g).fold(init, h)                           ==   let mut a = init; for x in base { a = h(a, g(x)) }
+#   base.for_each(|x| k(x))                             ==   for x in base { k(x) }
+#
+# The rewrite is a model of std's adaptors (trusted, like every other std contract used here); closure literals are
+# spliced in, function items become calls.  Chains it does not understand are left untouched.
+
+ITER = "core::iter::traits::iterator::Iterator::"
+LAZY = ("map", "filter_map", "filter", "inspect")
+CONSUMERS = ("collect", "for_each", "fold")
+
+
+def desugar_adaptors(prog, fn):
+    blocks = [_copy.copy(b) for b in fn.blocks]
+    locals_ = list(fn.locals)
+    done = []
+
+    def new_local(ty="?"):
+        locals_.append(ty)
+        return len(locals_) - 1
+
+    def new_block(stmts, term, at=None):
+        b = {"id": len(blocks), "stmts": stmts, "term": term, "synthetic": True}
+        blocks.append(b)
+        return b["id"]
+
+    def assign(l, rv, at=None):
+        return {"k": "assign", "lhs": {"l": l, "p": []}, "rv": rv, "at": at}
+
+    def single_def_call(l):
+        hits = [b for b in blocks if not b.get("cleanup") and b["term"]["k"] == "call" and b["term"]["dest"]["l"] == l and not b["term"]["dest"]["p"]]
+        stm = [1 for b in blocks for st in b["stmts"] if st["k"] == "assign" and st["lhs"]["l"] == l]
+        return hits[0] if len(hits) == 1 and not stm else None
+
+    def callable_of(op):
+        c = op.get("const")
+        if c is not None:
+            return ("fn", c) if c.get("kind") == "fn" else None
+        pl = op.get("copy") or op.get("move")
+        if pl is None or pl["p"]:
+            return None
+        defs = [(b, st) for b in blocks if not b.get("cleanup") for st in b["stmts"] if st["k"] == "assign" and st["lhs"]["l"] == pl["l"] and not st["lhs"]["p"]]
+        if len(defs) == 1 and defs[0][1]["rv"]["k"] == "agg" and defs[0][1]["rv"].get("agg") == "closure" and defs[0][1]["rv"]["closure"] in prog.fns:
+            return ("closure", defs[0][1]["rv"]["closure"], pl["l"])
+        return None
+
+    def emit_call(callable_, args, dest, target, at, by_ref=()):
+        """blocks computing dest = callable(args...) then going to `target`; returns entry block id"""
+        if callable_[0] == "fn":
+            c = callable_[1]
+            path = c.get("resolved") if c.get("resolved_local") else c.get("path")
+            t = {"k": "call", "decl": c.get("path"), "decl_local": bool(c.get("local")), "dispatch": "static", "resolved": path,
+                 "resolved_local": bool(c.get("resolved_local") or c.get("local")), "args": [{"move": {"l": a, "p": []}} for a in args], "arg_tys": [], "generic_args": [],
+                 "dest": {"l": dest, "p": []}, "target": target, "unwind": None, "at": at}
+            return new_block([], t)
+        _, cpath, clocal = callable_
+        cf = prog.fns[cpath]
+        lo, bo = len(locals_), len(blocks) + 1
+        pre = []
+        envty = cf.locals[1] if len(cf.locals) > 1 else ""
+        if envty.startswith("&"):
+            pre.append(assign(lo + 1, {"k": "ref", "mut": envty.startswith("&mut"), "place": {"l": clocal, "p": []}}, at))
+        else:
+            pre.append(assign(lo + 1, {"k": "use", "a": {"copy": {"l": clocal, "p": []}}}, at))
+        for i, a in enumerate(args):
+            pre.append(assign(lo + 2 + i, {"k": "use", "a": {"move": {"l": a, "p": []}}}, at))
+        locals_.extend(cf.locals)
+        entry = new_block(pre, {"k": "goto", "target": bo, "at": at})
+        assert entry + 1 == bo
+        for cb in cf.blocks:
+            nb = _renum_block(cb, lo, bo, target, {"l": dest, "p": []}, origin=cpath)
+            nb["synthetic"] = True
+            blocks.append(nb)
+        return entry
+
+    for bi in range(len(fn.blocks)):
+        t = blocks[bi]["term"]
+        if blocks[bi].get("cleanup") or t["k"] != "call" or not (t.get("decl") or "").startswith(ITER) or t.get("target") is None:
+            continue
+        kind = t["decl"][len(ITER):]
+        if kind not in CONSUMERS:
+            continue
+        if kind == "collect" and not (t.get("dest_ty") or "").startswith("alloc::vec::Vec<"):
+            continue
+        # walk the lazy chain backwards
+        stages = []
+        cur = t["args"][0]
+        chain_blocks = []
+        ok = True
+        while True:
+            pl = cur.get("copy") or cur.get("move")
+            if pl is None or pl["p"]:
+                ok = False
+                break
+            db = single_def_call(pl["l"])
+            if db is None:
+                break
+            dk = (db["term"].get("decl") or "")
+            if dk.startswith(ITER) and dk[len(ITER):] in LAZY:
+                ca = callable_of(db["term"]["args"][1])
+                if ca is None:
+                    ok = False
+                    break
+                stages.insert(0, (dk[len(ITER):], ca, db["id"]))
+                chain_blocks.append(db["id"])
+                cur = db["term"]["args"][0]
+                continue
+            break
+        if not ok:
+            continue
+        base = (cur.get("copy") or cur.get("move"))
+        if base is None or base["p"]:
+            continue
+        cons_callable = None
+        if kind == "for_each":
+            cons_callable = callable_of(t["args"][1])
+        elif kind == "fold":
+            cons_callable = callable_of(t["args"][2])
+        if kind in ("for_each", "fold") and cons_callable is None:
+            continue
+        if kind == "collect" and not stages:
+            continue
+        at = t.get("at")
+        dest = t["dest"]["l"]
+        if t["dest"]["p"]:
+            continue
+        # --- build the loop
+        it, d, rb = new_local("core::option::Option<?>"), new_local("isize"), new_local("&mut ?")
+        unreach = new_block([], {"k": "unreachable", "at": at})
+        exit_stmts = []
+        acc = None
+        if kind == "fold":
+            acc = new_local()
+            exit_stmts.append(assign(dest, {"k": "use", "a": {"move": {"l": acc, "p": []}}}, at))
+        elif kind == "for_each":
+            exit_stmts.append(assign(dest, {"k": "use", "a": {"const": {"kind": "zst", "ty": "()"}}}, at))
+        X = new_block(exit_stmts, {"k": "goto", "target": t["target"], "at": at})
+        H = new_block([assign(rb, {"k": "ref", "mut": True, "place": {"l": base["l"], "p": []}}, at)], None)
+        H2 = new_block([assign(d, {"k": "discr", "place": {"l": it, "p": []}, "ty": "core::option::Option<?>", "adt": "core::option::Option", "variants": {"0": "None", "1": "Some"}}, at)], None)
+        blocks[H]["term"] = {"k": "call", "decl": ITER + "next", "decl_local": False, "decl_trait": "core::iter::traits::iterator::Iterator", "dispatch": "static",
+                             "resolved": ITER + "next", "resolved_local": False, "args": [{"move": {"l": rb, "p": []}}],
+                             "arg_tys": ["&mut " + (locals_[base["l"]] if isinstance(locals_[base["l"]], str) else "?")], "generic_args": [],
+                             "dest": {"l": it, "p": []}, "target": H2, "unwind": None, "at": at}
+        x = new_local()
+        S0 = new_block([assign(x, {"k": "use", "a": {"copy": {"l": it, "p": [{"as": "Some"}, {"f": "0", "adt": "core::option::Option"}]}}}, at)], None)
+        blocks[H2]["term"] = {"k": "switch", "discr": {"move": {"l": d, "p": []}}, "discr_ty": "isize",
+                              "arms": [{"value": 0, "target": X}, {"value": 1, "target": S0}], "otherwise": unreach, "at": at}
+        # stages are emitted back to front so that each knows its continuation
+        # first create the consumer step
+        tail_entry = None
+        xs = [x] + [new_local() for _ in stages]
+        xn = xs[-1]
+        if kind == "collect":
+            rbv, unit = new_local("&mut ?"), new_local("()")
+            pb = new_block([assign(rbv, {"k": "ref", "mut": True, "place": {"l": dest, "p": []}}, at)], None)
+            blocks[pb]["term"] = {"k": "call", "decl": "alloc::vec::Vec::<T, A>::push", "decl_local": False, "self_adt": "alloc::vec::Vec", "dispatch": "static",
+                                  "resolved": "alloc::vec::Vec::<T, A>::push", "resolved_local": False, "args": [{"move": {"l": rbv, "p": []}}, {"move": {"l": xn, "p": []}}],
+                                  "arg_tys": [], "generic_args": [], "dest": {"l": unit, "p": []}, "target": H, "unwind": None, "at": at}
+            tail_entry = pb
+        elif kind == "for_each":
+            unit = new_local("()")
+            tail_entry = emit_call(cons_callable, [xn], unit, H, at)
+        else:
+            tmp = new_local()
+            back = new_block([assign(acc, {"k": "use", "a": {"move": {"l": tmp, "p": []}}}, at)], {"k": "goto", "target": H, "at": at})
+            tail_entry = emit_call(cons_callable, [acc, xn], tmp, back, at)
+        nxt = tail_entry
+        for k in range(len(stages) - 1, -1, -1):
+            skind, ca, sblock = stages[k]
+            xin, xout = xs[k], xs[k + 1]
+            r = new_local()
+            if skind == "map":
+                after = new_block([assign(xout, {"k": "use", "a": {"move": {"l": r, "p": []}}}, at)], {"k": "goto", "target": nxt, "at": at})
+                nxt = emit_call(ca, [xin], r, after, at)
+            elif skind == "filter_map":
+                dd = new_local("isize")
+                some = new_block([assign(xout, {"k": "use", "a": {"copy": {"l": r, "p": [{"as": "Some"}, {"f": "0", "adt": "core::option::Option"}]}}}, at)],
+                                 {"k": "goto", "target": nxt, "at": at})
+                sw = new_block([assign(dd, {"k": "discr", "place": {"l": r, "p": []}, "ty": "core::option::Option<?>", "adt": "core::option::Option", "variants": {"0": "None", "1": "Some"}}, at)],
+                               {"k": "switch", "discr": {"move": {"l": dd, "p": []}}, "discr_ty": "isize", "arms": [{"value": 0, "target": H}, {"value": 1, "target": some}], "otherwise": unreach, "at": at})
+                nxt = emit_call(ca, [xin], r, sw, at)
+            elif skind in ("filter", "inspect"):
+                rx = new_local("&?")
+                keep = new_block([assign(xout, {"k": "use", "a": {"move": {"l": xin, "p": []}}}, at)], {"k": "goto", "target": nxt, "at": at})
+                if skind == "filter":
+                    after = new_block([], {"k": "switch", "discr": {"move": {"l": r, "p": []}}, "discr_ty": "bool", "arms": [{"value": 0, "target": H}], "otherwise": keep, "at": at})
+                else:
+                    after = keep
+                call_entry = emit_call(ca, [rx], r, after, at)
+                nxt = new_block([assign(rx, {"k": "ref", "mut": False, "place": {"l": xin, "p": []}}, at)], {"k": "goto", "target": call_entry, "at": at})
+        blocks[S0]["term"] = {"k": "goto", "target": nxt, "at": at}
+        # --- entry: initialise, then enter the loop; the adaptor calls themselves disappear
+        pre = list(blocks[bi]["stmts"])
+        nb = dict(blocks[bi])
+        if kind == "fold":
+            pre.append(assign(acc, {"k": "use", "a": t["args"][1]}, at))
+        nb["stmts"] = pre
+        if kind == "collect":
+            vb = new_block([], {"k": "call", "decl": "alloc::vec::Vec::<T>::new", "decl_local": False, "self_adt": "alloc::vec::Vec", "dispatch": "static",
+                                "resolved": "alloc::vec::Vec::<T>::new", "resolved_local": False, "args": [], "arg_tys": [], "generic_args": [],
+                                "dest": {"l": dest, "p": []}, "target": H, "unwind": None, "at": at})
+            nb["term"] = {"k": "goto", "target": vb, "at": at}
+        else:
+            nb["term"] = {"k": "goto", "target": H, "at": at}
+        blocks[bi] = nb
+        for sb in chain_blocks:
+            cbk = dict(blocks[sb])
+            cbk["term"] = {"k": "goto", "target": blocks[sb]["term"]["target"], "at": at}
+            blocks[sb] = cbk
+        done.append("%s@bb%d[%s]" % (kind, bi, ",".join(s_[0] for s_ in stages)))
+    if not done:
+        return fn
+    d = {k: v for k, v in fn.d.items() if k not in ("blocks", "locals")}
+    d["locals"] = locals_
+    d["blocks"] = blocks
+    d["arg_count"] = fn.nargs
+    nf = Fn(prog, fn.path, d)
+    nf.desugared = done
+    nf.inlined = list(getattr(fn, "inlined", []) or [])
+    return nf
